@@ -594,6 +594,12 @@ func outputNames(items []string) []string {
 }
 
 func execJoinQueries(d *xdb, r *hx.Rng, t1, t2, t3 xtable) {
+	// every table of a FROM clause has its own name: the same table twice needs aliases, one alias
+	// serves one table
+	for _, q := range []string{"SELECT t1.a FROM t1 JOIN t1 ON t1.k = t1.k", "SELECT x.a FROM t1 x JOIN t2 x ON x.k = x.k", "SELECT x.a FROM t1 x LEFT JOIN t2 x ON x.a = 7",
+		"SELECT t1.a FROM t1 JOIN t2 ON t1.k = t2.k JOIN t1 ON t1.k = t2.k", "SELECT x.a, y.a FROM t1 x JOIN t1 y ON x.k = y.k"} {
+		d.query(q, "judged", "table-names")
+	}
 	jts := []string{"JOIN", "INNER JOIN", "LEFT JOIN", "RIGHT JOIN"}
 	for i := 0; i < 14; i++ {
 		jt := jts[r.Intn(4)]
